@@ -42,8 +42,11 @@ pub enum HV {
     DupValidInvalid,
     DupInvalidValid,
     Other,
+    /// the valid value with one letter replaced by a non-ASCII character that Unicode case folding maps onto it
+    /// (KELVIN SIGN U+212A for k/K, LATIN SMALL LETTER LONG S U+017F for s/S): equal only under a Unicode-aware comparison
+    UnicodeFold,
 }
-pub const HVS: [HV; 12] = [HV::Exact, HV::Absent, HV::CaseChanged, HV::Prefix, HV::Suffix, HV::Padded, HV::TokenList, HV::Empty, HV::DupValidValid, HV::DupValidInvalid, HV::DupInvalidValid, HV::Other];
+pub const HVS: [HV; 13] = [HV::Exact, HV::Absent, HV::CaseChanged, HV::Prefix, HV::Suffix, HV::Padded, HV::TokenList, HV::Empty, HV::DupValidValid, HV::DupValidInvalid, HV::DupInvalidValid, HV::Other, HV::UnicodeFold];
 
 fn case_changed(s: &str) -> String {
     s.chars().enumerate().map(|(i, c)| if i % 2 == 0 { c.to_ascii_uppercase() } else { c.to_ascii_lowercase() }).collect()
@@ -67,6 +70,16 @@ pub fn values(h: usize, v: HV, cfg: Cfg) -> Vec<String> {
         HV::DupValidInvalid => vec![ok, bad],
         HV::DupInvalidValid => vec![bad, ok],
         HV::Other => vec!["something-else".to_string()],
+        HV::UnicodeFold => {
+            let folded = if let Some(i) = ok.find(['k', 'K']) {
+                format!("{}\u{212A}{}", &ok[..i], &ok[i + 1..])
+            } else if let Some(i) = ok.find(['s', 'S']) {
+                format!("{}\u{17F}{}", &ok[..i], &ok[i + 1..])
+            } else {
+                ok // no letter with a non-ASCII case partner: the value itself
+            };
+            vec![folded]
+        }
     }
 }
 
@@ -383,7 +396,7 @@ fn apply(c: &mut ReqCase, p: (u8, u8, u8)) {
 }
 
 pub fn run(ctx: &Ctx, rep: &mut Report) {
-    rep.rule = "requests = method {GET,POST,HEAD,PUT,OPTIONS} x path {/ws,/ws?x=1,/ws/,/WS,/wsx,/,/health,/version,/x} x for each of Connection, Upgrade, Sec-WebSocket-Version, Sec-WebSocket-Protocol, Sec-WebSocket-Key, X-Penguin-PSK a variant in {exact, absent, case-changed, prefix, suffix, padded, token list, empty, duplicate valid+valid / valid+invalid / invalid+valid, other} \
+    rep.rule = "requests = method {GET,POST,HEAD,PUT,OPTIONS} x path {/ws,/ws?x=1,/ws/,/WS,/wsx,/,/health,/version,/x} x for each of Connection, Upgrade, Sec-WebSocket-Version, Sec-WebSocket-Protocol, Sec-WebSocket-Key, X-Penguin-PSK a variant in {exact, absent, case-changed, prefix, suffix, padded, token list, empty, duplicate valid+valid / valid+invalid / invalid+valid, other, one letter replaced by its non-ASCII Unicode case partner (U+212A, U+017F)} \
                 x server configuration {no PSK, an ASCII PSK, a PSK with octets >= 0x80} x {obfs on/off} x {static 404 body, local deterministic backend}. ALL requests deviating from a valid upgrade in <= 2 places are enumerated under all 12 configurations, random requests beyond; the valid request and every single deviation also without an upgrade offered by the HTTP layer (HTTP/1.0, HTTP/2). \
                 Oracle: reference predicate from the statement; 101 must carry the protocol and the RFC 6455 accept hash (own SHA-1/base64); every other response must equal (status, headers, body) the response to the same request on an unknown path; /health and /version equal it when obfs is on. \
                 Non-trivial = a request to /ws deviating from a valid upgrade in at most two places (incl. the valid one). Distinct = distinct case value."
